@@ -81,7 +81,32 @@ def sequences(seed=0, maxlen=3, nrandom=400, randlen=5):
         yield tuple(rnd.choice(LINES) for _ in range(randlen))
 
 
+DOC_CASES = [       # (lines, expected stream) with docmark '!': documentation lines come out once each, whatever the layout of the statement they follow
+    (["!! doc", "y = 1 + &", "", " 2"], ["!! doc", "y = 1 + 2"]),
+    (["!! doc", "y = 1 + &", " 2"], ["!! doc", "y = 1 + 2"]),
+    (["x = 1 !! inline", "y = 2 + &", "  ! ordinary", "  3"], ["x = 1", "!! inline", "y = 2 + 3"]),
+    (["x = 'a&", "  &b' !! after the literal", "z = 0"], ["x = 'ab'", "!! after the literal", "z = 0"]),
+    (["x = 1", "!! first", "", "!! second", "y = 2"], ["x = 1", "!! first", "!!", "!! second", "y = 2"]),
+]
+
+
+def doc_cases():
+    rd = loader.import_repo("ford.reader")
+    for lines, exp in DOC_CASES:
+        with realrun.project_dir({"t.f90": "\n".join(lines) + "\n"}) as d:
+            try:
+                act = list(rd.FortranReader(os.path.join(d, "t.f90"), docmark="!"))
+            except Exception as e:
+                act = f"{type(e).__name__}: {e}"
+        if act != exp:
+            return {"confirmed": True, "input": lines, "actual": act, "expected": exp, "how": "real FortranReader with docmark '!': statements and documentation lines"}
+    return None
+
+
 def search(seed=0, nrandom=400, randlen=5):
+    hit = doc_cases()
+    if hit:
+        return hit
     for seq in sequences(seed, nrandom=nrandom, randlen=randlen):
         try:
             exp = oracle(seq)
